@@ -215,6 +215,19 @@ class World:
                 obj = Flag()               # flags with "init" are set by root() via the API
             elif kind == "tracked":
                 obj = Tracked(spec.get("init", 0))
+            elif kind in ("lock", "pipe", "upipe") and self.scenario.get("reuse_objects"):
+                # module-level primitives used by one simulation after the other (replications of
+                # a model around the same Lock / Pipe objects; idle again after every run)
+                obj = SHARED_CONDITIONS.get((kind, name))
+                if obj is None:
+                    if kind == "lock":
+                        obj = Lock()
+                    elif kind == "pipe":
+                        tp = spec["throughput"]
+                        obj = Pipe(throughput=math.inf if tp == "inf" else tp)
+                    else:
+                        obj = UnboundedPipe()
+                    SHARED_CONDITIONS[(kind, name)] = obj
             elif kind == "lock":
                 obj = Lock()
             elif kind == "queue":
@@ -1086,7 +1099,7 @@ def execute(case, record_kernel=True, setup=None):
     if setup is not None:
         setup(world)
     scenario = case["scenario"]
-    if scenario.get("share_conditions") != "history":
+    if scenario.get("share_conditions") != "history" and not scenario.get("reuse_objects"):
         SHARED_CONDITIONS.clear()        # objects are shared within this run only
     config = case.get("config") or {}
     record = Record()
